@@ -355,7 +355,7 @@ def perparam_law(family, p0, x, N, findings, stats, tag):
     kind, vector = PERPARAM[family]
     names = list(p0.parameters)
     n = len(names)
-    if getattr(p0, 'isdiagonal', True) is False:
+    if not getattr(p0, 'isdiagonal', True):        # (a numpy.bool_ after the `cov` setter)
         full_cov_args(family, p0, x, findings, stats, tag)
         return None
     # settings histories: jump on the very object that went through the history (no copy in
@@ -1916,7 +1916,15 @@ def build_history(fam, hist, rng, nparams):
         said('twin: the original')
     else:
         raise KeyError(hist)
-    return dict(R=R, T=T, steps=steps, names=names, kind=kind, doms=_live_doms(R, kind, names, doms))
+    # for the attribution of a mismatch: objects earlier in the history, most recent first, with the
+    # history group the mismatch belongs to if that object shows it as well (None: no history needed)
+    baselines = [(lambda: fresh()[1], None)]
+    if hist in ('pickle', 'deepcopy'):
+        prev = 'reset' if any('reset_proposals' in t for t in steps) else \
+            'setter' if any(t.startswith('.std') or t.startswith('.kappa') for t in steps) else None
+        baselines.insert(0, (lambda: base, prev))
+    return dict(R=R, T=T, steps=steps, names=names, kind=kind, doms=_live_doms(R, kind, names, doms),
+                start_doms=doms, baselines=baselines)
 
 
 def _num_same(a, b, amp=1.0):
@@ -1990,6 +1998,12 @@ def twin_check(fam, H, x, pairs, rng, findings, stats):
             jumps_same = jumps_same and a == b
         else:
             jumps_same = jumps_same and all(_num_same(a[k], b[k]) for k in a)
+    if bool(getattr(R, 'isdiagonal', True)) != bool(getattr(T, 'isdiagonal', True)):
+        # one object draws componentwise, the other through multivariate_normal (a 1 x 1 "full" matrix
+        # is diagonal for the setter, not for a restored state): the same law from other generator
+        # calls, the draws are not comparable one by one; the densities still are
+        jumps_same = True
+        stats['twin_jumps_not_comparable'] = stats.get('twin_jumps_not_comparable', 0) + 1
     bad = None
     if fam in EIGEN:
         for j, (a, b) in enumerate(zip(dR, dT)):
@@ -2097,53 +2111,83 @@ def jump_interval_walk(fam, rng, nparams, N, nodes, findings, stats, steps):
     T = _hchain(fam, names, doms, s0, pattern=pat, window=window, jump_interval=1, start=start)[1]
     steps.append('law / twin comparison on the object as constructed (counter 0); twin: the same constructor call '
                  'with jump_interval=1')
-    return dict(R=first, T=T, steps=steps, names=names, kind=kind, doms=live)
+    return dict(R=first, T=T, steps=steps, names=names, kind=kind, doms=live, start_doms=doms,
+                baselines=[(lambda: T, None)])
+
+
+def _history_law(fam, R, kind, names, doms, rng, unit, stats):
+    """The law-of-the-jumps comparison of this family on the object R as it is (strict: every
+    mismatch is a finding).  Returns (findings, x, point pairs for the twin comparison)."""
+    mine = []
+    tag = {'which': 0, 'inplace': True, 'nodes': unit.get('nodes', (16, 16))}
+    x = point(kind, doms, names, rng)
+    y = point(kind, doms, names, rng)
+    keep = stats.get('_strict')
+    stats['_strict'] = True
+    try:
+        if fam in PERPARAM:
+            cx = perparam_law(fam, R, x, unit['N'], mine, stats, tag)
+            cy = perparam_law(fam, R, y, unit['N'], mine, stats, dict(tag, which=1)) if y != x else None
+            normaliser_check(fam, R, [(x, cx), (y, cy)], mine, stats)
+            pool = query_pool(fam, R, rng)
+            symmetric_reported(fam, R, [(x, y)] + [(q[1], q[0]) for q in pool[:1]], mine, stats)
+            if fam in DISCRETE and pool:
+                history_independence(fam, R, pool[:2], mine, stats, 2)
+            pairs = [(y, x), (x, y)] + pool[:2]
+        elif fam in EIGEN:
+            cells, per = unit.get('enodes', (16, 8))
+            cs = eigen_law(fam, R, x, unit['N'], mine, stats, every=unit.get('every', 15), cells=cells, per=per)
+            if unit.get('two_points'):
+                cs2 = eigen_law(fam, R, y, unit['N'], mine, stats, every=unit.get('every', 15), cells=cells, per=per,
+                                which=1)
+                eigen_normalisers(fam, R, x, y, cs, cs2, mine, stats)
+            pairs = []
+        else:
+            cx = sphere_law(fam, R, x, unit['m'], mine, stats)
+            cy = sphere_law(fam, R, y, unit['m'], mine, stats, which=1)
+            normaliser_check(fam, R, [(x, cx), (y, cy)], mine, stats)
+            symmetric_reported(fam, R, [(x, y)], mine, stats)
+            pairs = [(y, x), (x, y), (x, x)]
+    finally:
+        stats['_strict'] = keep
+        for k_ in ('_pending', '_disp'):
+            stats.pop(k_, None)
+    return mine, x, pairs
 
 
 def settings_history_unit(unit, findings, stats):
     fam, hist = unit['family'], unit['hist']
     rng = random.Random(unit['seed'])
-    mine = []
-    stats['_strict'] = True
     steps = []
+    mine = []
     if hist == 'jump-interval':
         H = jump_interval_walk(fam, rng, unit['nparams'], unit['N'], unit.get('nodes', (16, 16)), mine, stats, steps)
     else:
         H = build_history(fam, hist, rng, unit['nparams'])
-    R, names, kind, doms = H['R'], H['names'], H['kind'], H['doms']
-    tag = {'which': 0, 'inplace': True, 'nodes': unit.get('nodes', (16, 16))}
-    x = point(kind, doms, names, rng)
-    y = point(kind, doms, names, rng)
-    if fam in PERPARAM:
-        cx = perparam_law(fam, R, x, unit['N'], mine, stats, tag)
-        cy = perparam_law(fam, R, y, unit['N'], mine, stats, dict(tag, which=1)) if y != x else None
-        normaliser_check(fam, R, [(x, cx), (y, cy)], mine, stats)
-        pool = query_pool(fam, R, rng)
-        symmetric_reported(fam, R, [(x, y)] + [(q[1], q[0]) for q in pool[:1]], mine, stats)
-        if fam in DISCRETE and pool:
-            history_independence(fam, R, pool[:2], mine, stats, 2)
-        pairs = [(y, x), (x, y)] + pool[:2]
-    elif fam in EIGEN:
-        cells, per = unit.get('enodes', (16, 8))
-        cs = eigen_law(fam, R, x, unit['N'], mine, stats, every=unit.get('every', 15), cells=cells, per=per)
-        if unit.get('two_points'):
-            cs2 = eigen_law(fam, R, y, unit['N'], mine, stats, every=unit.get('every', 15), cells=cells, per=per, which=1)
-            eigen_normalisers(fam, R, x, y, cs, cs2, mine, stats)
-        pairs = []
-    else:
-        cx = sphere_law(fam, R, x, unit['m'], mine, stats)
-        cy = sphere_law(fam, R, y, unit['m'], mine, stats, which=1)
-        normaliser_check(fam, R, [(x, cx), (y, cy)], mine, stats)
-        symmetric_reported(fam, R, [(x, y)], mine, stats)
-        pairs = [(y, x), (x, y), (x, x)]
+    R, names, kind = H['R'], H['names'], H['kind']
+    law, x, pairs = _history_law(fam, R, kind, names, H['doms'], rng, unit, stats)
+    mine.extend(law)
     if H['T'] is not None:
         twin_check(fam, H, x, pairs, rng, mine, stats)
     stats.pop('_strict', None)
-    stats.pop('_pending', None)
-    stats.pop('_disp', None)
     stats['settings_history_units'] = stats.get('settings_history_units', 0) + 1
     stats['hist:%s:%s' % (hist, fam)] = stats.get('hist:%s:%s' % (hist, fam), 0) + 1
     group = HIST_GROUP[hist]
+    where = None
+    if any(f[0] not in KNOWN_SITE_KEYS and f[0] != '%s:jump-interval' % fam for f in law):
+        # attribution (only ever run after a mismatch): does an object earlier in the history show a
+        # mismatch of the same comparison already?
+        scratch = {}
+        for make, g in H['baselines']:
+            obj = make()
+            doms = _live_doms(obj, kind, names, H['start_doms'])
+            earlier, _, _ = _history_law(fam, obj, kind, names, doms, random.Random(unit['seed'] + 1), unit, scratch)
+            if not any(f[0] not in KNOWN_SITE_KEYS for f in earlier):
+                break
+            group = g
+            where = 'the same comparison fails on the object before the last step of the history as well' \
+                if g is not None else 'the same comparison fails on a freshly constructed object as well: the ' \
+                'history is not what breaks it'
     for key, text, payload in mine:
         payload = dict(payload)
         payload['history'] = H['steps']
@@ -2151,8 +2195,12 @@ def settings_history_unit(unit, findings, stats):
         payload['settings_after_history'] = _settings(R)
         if key not in KNOWN_SITE_KEYS:
             payload['check'] = key
-            key = '%s:stale-density-after-%s' % (fam, group)
-            text = '[history %s: %s] %s' % (hist, ' ; '.join(H['steps'][1:])[:700], text)
+            if key == '%s:jump-interval' % fam:
+                key = '%s:stale-density-after-jump-interval' % fam
+            elif group is not None:
+                key = '%s:stale-density-after-%s' % (fam, group)
+            text = '[history %s: %s%s] %s' % (hist, ' ; '.join(H['steps'][1:])[:700],
+                                             (' ; NOTE ' + where) if where else '', text)
         findings.append((key, text, payload))
 
 
@@ -2314,7 +2362,7 @@ def plan_history_units(seed, quick):
                     u['every'] = 15 if quick else 40
                     u['enodes'] = (16, 8) if quick else (32, 16)
                     if 'bounded' in fam:
-                        u['N'] = 1500 if quick else 20000
+                        u['N'] = 1000 if quick else 20000
                     u['two_points'] = not quick
                 if fam in SPHERE:
                     u['m'] = 10 if quick else 14
